@@ -1146,7 +1146,9 @@ class MapAsyncWorkerTake(MapAsyncNode):
     balance_clause = BufferCb1.balance_clause
 
     def clauses(self):
-        return [Clause('C02.awaits_the_head_job', ['C02'], when='yield:2',
+        return [Clause('C02.a_job_taken_from_the_queue_is_never_dropped', ['C02', 'C05'], when='return', text='False',
+                       note='once the worker has taken a job it awaits it (and delivers its result) whatever the stop flag says'),
+                Clause('C02.awaits_the_head_job', ['C02'], when='yield:2',
                        text='pair(task, metadata) == taken and emitted == [] and q_get == 0',
                        note='jobs are completed one at a time in queue order'),
                 ] + self.segment_clauses()
